@@ -6,6 +6,7 @@ CONSTANTS
   Objs = {1, 2}
   Spellings <- AllSp
   D = 3
+  LooseRefusal = FALSE
 INVARIANT LastAcceptedWins
 INVARIANT NoBadFiles
 INVARIANT ImportSeesLastExport
